@@ -81,6 +81,14 @@ impl MetricSink for GatedSink {
         self.sh.outcomes.lock().unwrap().push(outcome.clone());
         self.sh.finished.fetch_add(1, Ordering::SeqCst);
         let _gate = UnwindGate;
+        if outcome != "panic" {
+            // a scripted return can be held as well: producer steps the solver placed between the sink's return and the
+            // worker's next operation happen while the worker is still inside emit()
+            let t = Instant::now();
+            while HOLD_UNWIND.load(Ordering::SeqCst) && t.elapsed() < Duration::from_secs(10) {
+                std::thread::sleep(Duration::from_millis(1));
+            }
+        }
         match outcome.as_str() {
             "ok" => Ok(m.len()),
             o if o.starts_with("ok:") => Ok(o[3..].parse::<usize>().unwrap_or(m.len())),
@@ -556,6 +564,10 @@ pub fn replay(sc: &Value) -> Value {
     cadence::verif::set_hook(Some(sched_point));
     let mut parks = 0usize;
     let mut handles: Vec<QueuingMetricSink> = vec![b.build(sink)];
+    if rendezvous {
+        // every violating history starts with the worker passing its stop check: let it get to the scheduling point first
+        let _ = wait_until(|| ARRIVED.load(Ordering::SeqCst) >= 1, 3000);
+    }
     let mut accepted: Vec<String> = vec![];
     let mut results: Vec<String> = vec![];
     let mut nemit = 0;
